@@ -128,12 +128,37 @@ def login_case(ctx, case):
     plan = case.get('plan', 'whole')
     if isinstance(plan, tuple):
         plan = list(plan)
-    world = vnet.World(servers=[srv], plan=plan)
+    # an earlier session on the same Connection object (the login under test
+    # is then the object's second one): prior = [threshold|None, how] with
+    # how = 'handler_direct' (server drops the link; an exception handler
+    # calls connect()), 'handler_disc' (same, disconnect(immediate) first),
+    # 'user' (server ends with a disconnect packet; the user connects again)
+    prior = case.get('prior')
+    scripts = [srv]
+    if prior:
+        psteps = ([('compress', prior[0])] if prior[0] is not None else []) \
+            + [('success',)]
+        scripts.insert(0, servers.Server({
+            'version': version, 'login': psteps,
+            'play': {'bursts': [], 'mode': 'all',
+                     'end': 'disconnect' if prior[1] == 'user' else 'eof'}}))
+        ctx.label('prior_session_' + prior[1])
+    world = vnet.World(servers=scripts, plan=plan)
     tok = Tok('Prof') if case.get('token') else None
     reactor_seen = []
     with vnet.installed(world):
         conn, o = servers.make_connection(
             world, allowed_versions={version}, auth_token=tok)
+        if prior and prior[1] != 'user':
+            did = []
+
+            def again(exc, info):
+                if not did and isinstance(exc, EOFError):
+                    did.append(1)
+                    if prior[1] == 'handler_disc':
+                        conn.disconnect(immediate=True)
+                    conn.connect()
+            conn.register_exception_handler(again)
         if case.get('takeover'):
             def take(p):
                 conn.write_packet(serverbound.login.PluginResponsePacket(
@@ -147,6 +172,11 @@ def login_case(ctx, case):
             clientbound.play.KeepAlivePacket)
         try:
             conn.connect()
+            if prior and prior[1] == 'user':
+                if world.settle() != 'done':
+                    from vlib.core import HarnessError
+                    raise HarnessError('C10 prior session did not end')
+                conn.connect()
         except Exception as e:
             ctx.fail('login', 'L-connect-raised', case, exc=e)
             return
@@ -155,6 +185,23 @@ def login_case(ctx, case):
         from vlib.core import HarnessError
         raise HarnessError('C10 case did not settle')
     excs = [e for e, i in o.exceptions]
+    prior_exits = 0
+    if prior:
+        if len(world.links) != 2 or scripts[0].errors or \
+                not scripts[0].play_started:
+            ctx.fail('login', 'L-prior-session', case,
+                     (len(world.links), scripts[0].errors), '2 links')
+            return
+        if prior[1] == 'user':
+            prior_exits = 1
+        else:
+            # the dropped link of the prior session was reported once
+            eofs = [e for e in excs if isinstance(e, EOFError)]
+            if len(eofs) != 1:
+                ctx.fail('login', 'L-prior-session-error-report', case,
+                         [repr(e) for e in excs], 'one EOFError')
+                return
+            excs.remove(eofs[0])
     nopt = len([s for s in steps if s[0] in ('encrypt', 'compress',
                                              'plugin')])
     if nopt >= 2 or term[0] != 'success':
@@ -217,8 +264,9 @@ def login_case(ctx, case):
         if srv.replies != [('keep_alive', 77)]:
             ctx.fail('login', 'L5-keep-alive-after-login', case,
                      srv.replies, [('keep_alive', 77)])
-        if o.exits != 1:
-            ctx.fail('login', 'L5-exit-callback', case, o.exits, 1)
+        if o.exits != 1 + prior_exits:
+            ctx.fail('login', 'L5-exit-callback', case, o.exits,
+                     1 + prior_exits)
         if tok is not None:
             want_join = []
             if enc is not None and enc[3] != '-':
@@ -230,8 +278,9 @@ def login_case(ctx, case):
                          want_join)
     else:
         # L6
-        if o.exits != 0:
-            ctx.fail('login', 'L6-exit-callback-on-failure', case, o.exits, 0)
+        if o.exits != prior_exits:
+            ctx.fail('login', 'L6-exit-callback-on-failure', case, o.exits,
+                     prior_exits)
         if len(excs) != 1:
             ctx.fail('login', 'L6-silent-or-multiple', case,
                      [repr(e) for e in excs], 'exactly one error')
@@ -254,7 +303,7 @@ def login_case(ctx, case):
                          'VersionMismatch for %r' % needle)
             if spaced:
                 ctx.label('outdated_with_space')
-        if not world.links[0].closed_by_client():
+        if not world.links[-1].closed_by_client():
             ctx.fail('login', 'L6-link-left-open', case)
 
 
@@ -398,12 +447,18 @@ def case_strategy(versions):
             'plan': st.one_of(st.just('whole'), st.just('one'),
                               st.lists(st.integers(1, 40), min_size=1,
                                        max_size=5)),
-            's2c_compress': st.lists(st.booleans(), max_size=4)})
+            's2c_compress': st.lists(st.booleans(), max_size=4),
+            'prior': st.one_of(
+                st.none(), st.none(),
+                st.tuples(st.sampled_from([None, 0, 64, 256]),
+                          st.sampled_from(['handler_direct', 'handler_disc',
+                                           'user'])))})
     return st.sampled_from(versions).flatmap(fv)
 
 
 def t_fixed(ctx, versions):
     tokn = b'\x01\x02\x03\x04'
+    k = 0
     for v in versions:
         scripts = [
             [],
@@ -425,6 +480,14 @@ def t_fixed(ctx, versions):
                         'version': v, 'steps': sc, 'terminal': term,
                         'token': token, 'takeover': take, 'plan': 'whole',
                         's2c_compress': [True, False]})
+                k += 1
+                login_case(ctx, {
+                    'version': v, 'steps': sc, 'terminal': term,
+                    'token': False, 'takeover': False, 'plan': 'whole',
+                    's2c_compress': [True, False],
+                    'prior': ([64, None, 0][k % 3],
+                              ['handler_direct', 'user',
+                               'handler_disc'][k % 3])})
     ctx.sample({'version': versions[0] if versions else None,
                 'steps': 'fixed script table'}, 'fixed')
     ctx.exhaustive_done('6 fixed scripts x 3 terminals x 2 client configs '
